@@ -595,7 +595,7 @@ def selectTail (q : Select) (fields : List Field) (filtered : List Row) :
     X (List Row × List Field) := do
   let (rows, hdr) ← projectColumns q.list fields filtered
   let rows ← aggregateRows q.list q.groupBy rows
-  let rows ← sortColumns q.orderBy hdr rows
+  let rows ← sortColumns q.orderBy (sortFields q.list hdr) rows
   let rows := if q.lim.offsetActive then rows.drop q.lim.offset.toNat else rows
   let rows := if q.lim.limitActive then rows.take q.lim.limit.toNat else rows
   pure (rows, hdr)
@@ -617,7 +617,7 @@ theorem selectTail_ok {q : Select} {fields : List Field} {filtered rows : List R
     (h : selectTail q fields filtered = .ok (rows, hdr)) :
     ∃ projected keys,
       projectColumns q.list fields filtered = .ok (projected, hdr) ∧
-      resolveSortKeys q.orderBy hdr = .ok keys ∧
+      resolveSortKeys q.orderBy (sortFields q.list hdr) = .ok keys ∧
       (∀ a ∈ projected, ∀ b ∈ projected, KeyComparable keys a b) ∧
       rows = cut q.lim (sortRows keys projected) := by
   unfold selectTail at h
@@ -646,7 +646,7 @@ theorem select_single_table {fetch : Bytes → Option Table} {q : Select} {t : T
                     filtered = src.filter (keeps c fields)
         | none => filtered = src) ∧
       projectColumns q.list fields filtered = .ok (projected, hdr) ∧
-      resolveSortKeys q.orderBy hdr = .ok keys ∧
+      resolveSortKeys q.orderBy (sortFields q.list hdr) = .ok keys ∧
       (∀ a ∈ projected, ∀ b ∈ projected, KeyComparable keys a b) ∧
       rows = cut q.lim (sortRows keys projected) := by
   rw [evaluateSelect_from fetch q _ hfrom] at h
@@ -702,12 +702,13 @@ theorem mapX_ok_mapM {α β} {f : α → X β} {g : α → Option β}
 
 /-- the executor resolves the ORDER BY keys as the specification does -/
 theorem resolveSortKeys_spec {q : Select} {hdr : List Field} {keys : List (Nat × Bool)}
-    (h : resolveSortKeys q.orderBy hdr = .ok keys) : Spec.sortKeys q hdr = some keys := by
+    (h : resolveSortKeys q.orderBy (sortFields q.list hdr) = .ok keys) :
+    Spec.sortKeys q hdr = some keys := by
   unfold resolveSortKeys at h
   unfold Spec.sortKeys
   refine mapX_ok_mapM ?_ h
   intro s b hs
-  cases hfc : findColumn s.key hdr with
+  cases hfc : findColumn s.key (sortFields q.list hdr) with
   | ok i => simp only [hfc, X.ok.injEq] at hs ⊢; rw [hs]
   | err e => simp only [hfc] at hs; cases e <;> cases hs
   | panic p => simp only [hfc] at hs; cases hs
